@@ -25,10 +25,10 @@ func (c07Stream) Name() string               { return "c07" }
 func (c07Stream) CaseTimeout() time.Duration { return 60 * time.Second }
 func (c07Stream) NoModel() bool              { return true }
 func (c07Stream) Rule() string {
-	return "one fault per scenario - a panicking handler for each concurrently dispatched operation (bind, search, modify, add, delete, extended), for StartTLS, for the unbind route and for the default route; a connection reset; a truncated frame followed by silence; a client that sends searches with large results and never reads, also one whose requests are served by the default route; descriptor exhaustion at accept (RLIMIT_NOFILE lowered in the worker); 48 connections whose read loops end on a malformed frame while a slow request of theirs is still being handled, with 48 new connections arriving at once; a client of a TLS listener that sends a truncated first record and stalls; a frame of 2^20 nested indefinite-length sequence headers (goroutine stack limit lowered to 32 MiB in the worker) - injected while two bystander connections issue requests continuously; oracle: the worker process survives, the bystanders keep receiving correct responses during and after the fault, and a new connection is accepted and served afterwards; non-trivial = every scenario, distinct by fault"
+	return "one fault per scenario - a panicking handler for each concurrently dispatched operation (bind, search, modify, add, delete, extended), for StartTLS, for the unbind route and for the default route, and for a bind on a TLS listener that requests but does not verify client certificates; a connection reset; a truncated frame followed by silence; a client that sends searches with large results and never reads, also one whose requests are served by the default route; descriptor exhaustion at accept (RLIMIT_NOFILE lowered in the worker); 48 connections whose read loops end on a malformed frame while a slow request of theirs is still being handled, with 48 new connections arriving at once; a client of a TLS listener that sends a truncated first record and stalls; a frame of 2^20 nested indefinite-length sequence headers (goroutine stack limit lowered to 32 MiB in the worker) - injected while two bystander connections issue requests continuously; oracle: the worker process survives, the bystanders keep receiving correct responses during and after the fault, and a new connection is accepted and served afterwards; non-trivial = every scenario, distinct by fault"
 }
 
-var c07Faults = []string{"panic-bind", "panic-search", "panic-modify", "panic-add", "panic-delete", "panic-extended", "panic-starttls", "panic-unbind", "panic-default", "rst", "truncated", "notreading", "notreading-default", "fdexhaust", "deepnest", "latewriter", "tlsstall"}
+var c07Faults = []string{"panic-bind", "panic-search", "panic-modify", "panic-add", "panic-delete", "panic-extended", "panic-starttls", "panic-unbind", "panic-default", "rst", "truncated", "notreading", "notreading-default", "panic-anycert", "fdexhaust", "deepnest", "latewriter", "tlsstall"}
 
 func (c07Stream) Generate(rng *rand.Rand, n int, thorough bool) []Case {
 	var cs []Case
@@ -112,6 +112,16 @@ func (c07Stream) Impl(c Case) string {
 		cliCfg = cliTLS.Clone()
 		cliCfg.ServerName = "localhost"
 	}
+	var victimCfg *tls.Config
+	if fault == "panic-anycert" {
+		// a listener that asks for a client certificate but does not verify it; the panicking request comes from a
+		// client that presents one
+		srvCfg = srvMTLS.Clone()
+		srvCfg.ClientAuth = tls.RequireAnyClientCert
+		cliCfg = cliMTLS.Clone()
+		cliCfg.ServerName = "localhost"
+		victimCfg = cliCfg
+	}
 	sut, err := startServer(mux, srvCfg, nil)
 	if err != nil {
 		return "harness-error start: " + err.Error()
@@ -158,7 +168,7 @@ func (c07Stream) Impl(c Case) string {
 	}
 	time.Sleep(20 * time.Millisecond)
 	// the fault
-	victim, err := dialRaw(sut.addr, nil) // (raw TCP also towards a TLS listener: the victim is the one misbehaving)
+	victim, err := dialRaw(sut.addr, victimCfg) // (raw TCP also towards a TLS listener: the victim is the one misbehaving)
 	if err != nil {
 		return "harness-error victim connect: " + err.Error()
 	}
@@ -176,6 +186,10 @@ func (c07Stream) Impl(c Case) string {
 			frame = Seq(Int(2, 666), C(1, 23, P(2, 0, []byte("9.9.9.9")))).Ser()
 		case "extended":
 			frame = Seq(Int(2, 666), C(1, 23, P(2, 0, []byte("1.3.6.1.4.1.4203.1.11.3")))).Ser()
+		case "anycert":
+			r := Req{Kind: "bind", ID: 666, DN: victimDN, Pass: "p"}
+			nd, _ := r.Node()
+			frame = nd.Ser()
 		default:
 			r := Req{Kind: op, ID: 666, DN: victimDN, Pass: "p", Scope: 2, Filter: "(cn=x)"}
 			nd, _ := r.Node()
